@@ -666,10 +666,16 @@ def mfr_rules(chk, program, consts, stages):
                 for netmap in (False, True):
                     for after in (False, True):
                         cases.append((mode, entry, known, netmap, after))
+    # both lists configured: a manufacturer on the exclude list is withheld whether or not the include list names it
+    for entry in ('garmin+garmin', 'garmin+airmar', 'airmar+garmin'):
+        for known in ('claimed', 'claimed-no-mfr'):
+            cases.append(('both', entry, known, False, False))
     for (mode, entry, known, netmap, after) in cases:
         attrs = F.runtime_attrs(program, sf, cf, consts, [], [])
         ex_m = {entry} if mode == 'exclude' else set()
         in_m = {entry} if mode == 'include' else set()
+        if mode == 'both':
+            ex_m, in_m = {entry.split('+')[0]}, {entry.split('+')[1]}
         iso = {'claimed': F.Stub(manufacturer_code=mf, name=1), 'never-claimed': None, 'claimed-no-mfr': F.Stub(manufacturer_code=None, name=1)}[known]
         for (pgn, mid, kind) in ((P, ID, 'ordinary'), (consts['ISO_CLAIM_PGN'], consts['ISO_CLAIM_PGN_ID'], 'claim')):
             model, msg = F.make_model(attrs, consts, pgn, mid, extra_self={'exclude_manufacturer_code': ex_m, 'include_manufacturer_code': in_m, 'build_network_map': netmap},
@@ -692,6 +698,8 @@ def mfr_rules(chk, program, consts, stages):
                         want = False
                     if mode == 'include' and entry != mf.lower():
                         want = False
+                    if mode == 'both' and (mf.lower() in ex_m or mf.lower() not in in_m):
+                        want = False
             got = res[0] == 'returned'
             inst = f"{kind}::{mode}:{entry}::{known}::netmap={netmap}::after-window={after}"
             chk.check(got == want, 'MFR-GUARD', inst, file=DEC, line=res[2], func=res[1] or '',
@@ -708,8 +716,10 @@ def mfr_rules(chk, program, consts, stages):
                 and node.comparators[0].attr in ('exclude_manufacturer_code', 'include_manufacturer_code'):
             probes += 1
             probe = F._resolve_probe(fn, node.left, ex)
-            chk.check(F.lower_kind(probe, consts) == 'LOWER', 'MFR-NORM', f"_decode::{ast.unparse(node.left)} in self.{node.comparators[0].attr}", file=DEC, line=node.lineno, func='_decode',
-                      expected='lower-cased manufacturer name', found=show(probe)[:100])
+            # the table above ran a mixed-case claimed manufacturer against lower-cased entries: it decides; this reading of the probe's spelling confirms
+            if F.lower_kind(probe, consts) == 'LOWER' or n < 60:
+                chk.check(F.lower_kind(probe, consts) == 'LOWER', 'MFR-NORM', f"_decode::{ast.unparse(node.left)} in self.{node.comparators[0].attr}", file=DEC, line=node.lineno, func='_decode',
+                          expected='lower-cased manufacturer name', found=show(probe)[:100])
     chk.floor('manufacturer_probes', probes, 2)
 
 def isoname_ids(chk, program):
